@@ -698,6 +698,27 @@ func (x *Exec) callContract(st *State, ins ssa.Instruction, fc *FuncContract, ca
 			}
 		}
 	}
+	if !fc.Pure {
+		holds := false
+		for _, r := range fc.Requires {
+			if strings.Contains(r.Text, "held(") {
+				holds = true
+			}
+		}
+		var ground []*Term
+		for i, a := range args {
+			if i < len(ptypes) {
+				if sc, ok := a.(Scalar); ok && st.isRefType(ptypes[i]) {
+					ground = append(ground, sc.T)
+				}
+				if pv, ok := a.(PtrV); ok && pv.Ref != nil {
+					ground = append(ground, pv.Ref)
+				}
+			}
+		}
+		_ = holds
+		x.interfereAll(st, false, ground...)
+	}
 	st.bumpAlloc()
 	// results
 	var res Value
@@ -1070,7 +1091,30 @@ func (x *Exec) checkFrameAgainst(st, base *State, kind, prefix string, ins ssa.I
 		if !ok {
 			h0 = base.lazyVersion(false, k, h.Sort)
 		}
-		if h == h0 || frameExempt(k) || strings.HasPrefix(k, "global:") || x.keyIsProtected(k) {
+		if h == h0 || frameExempt(k) || strings.HasPrefix(k, "global:") {
+			continue
+		}
+		if x.keyIsProtected(k) {
+			// protected fields are volatile (other goroutines change them), except on the instances whose
+			// lock this function holds from entry to exit: there its own modifies clause is binding, so
+			// that callers holding the lock can rely on it
+			for _, m := range x.heldEntryObjs {
+				root := m.root
+				if m.lockRoot != "" {
+					if j := strings.LastIndex(m.lockRoot, "."); j > 0 {
+						root = m.lockRoot[:j]
+					}
+				}
+				if mon := x.monitorOfType(x.rootType(root)); mon == nil || !keyUnder(k, root) {
+					continue
+				}
+				may := fs.heapMayChange(k, m.ref)
+				if may.IsTrue() {
+					continue
+				}
+				g := Implies(Not(may), Eq(Select(h, m.ref), Select(h0, m.ref)))
+				x.oblige(st, kind, prefix+"heap-held:"+k, g, "protected field "+k+" of the instance locked at entry unchanged outside modifies", ins, nil)
+			}
 			continue
 		}
 		o := Fresh("o", SInt)
@@ -1130,6 +1174,23 @@ func (x *Exec) havocFramed(st *State, heapKeys []string, allHeap bool, memKeys [
 		return false
 	}
 	hconstrain := func(s *State, k string, h, nh *Term) {
+		if !fs.all && x.keyIsProtected(k) {
+			// the instances locked from entry to exit change only as the modifies clause says
+			for _, m := range x.heldEntryObjs {
+				root := m.root
+				if m.lockRoot != "" {
+					if j := strings.LastIndex(m.lockRoot, "."); j > 0 {
+						root = m.lockRoot[:j]
+					}
+				}
+				if !keyUnder(k, root) {
+					continue
+				}
+				if may := fs.heapMayChange(k, m.ref); !may.IsTrue() {
+					s.Assume(Implies(Not(may), Eq(Select(nh, m.ref), Select(h, m.ref))))
+				}
+			}
+		}
 		if !fs.all && !frameExempt(k) && !strings.HasPrefix(k, "global:") && !x.keyIsProtected(k) {
 			o := Fresh("o", SInt)
 			may := fs.heapMayChange(k, o)
